@@ -76,7 +76,7 @@ def RelQ (sq : Option Q) (blocked : Option Msg) (jq : Option JQ) : Prop :=
 structure Rel (s : World) (j : JState) : Prop where
   nobad : j.bad = []
   items : j.outstanding.map (·.2) = s.rt.ring
-  bell : s.rt.ring ≠ [] → s.rt.bell > 0
+  bell : (∀ m, s.cons ≠ .drained m) → s.rt.ring ≠ [] → s.rt.bell > 0
   q : RelQ s.q s.blocked j.q
   wlook : ∀ w, j.getW w = (s.getW w).map jwOf
   wok : ∀ w k, s.getW w = some k → WkOk k
@@ -157,14 +157,14 @@ theorem rel_post (s : World) (j : JState) (h : Rel s j) (p k d : Nat) :
   · simp only [hfull, if_false, judgeCore, if_true]
     refine ⟨h.nobad, ?_, ?_, h.q, h.wlook, h.wok, h.tInited, h.tActive, h.tAI, h.tSlept, h.tIdle⟩
     · simp [h.items, Rt.ringBell]
-    · intro _; simp [Rt.ringBell]
+    · intro _ _; simp [Rt.ringBell]
 
 theorem rel_wakeup (s : World) (j : JState) (h : Rel s j) :
     Rel (stepE s .wakeup).1 (judgeRun j (stepE s .wakeup).2) := by
   simp only [stepE]
   rw [judgeRun_single h]
   simp only [judgeCore, if_true]
-  exact ⟨h.nobad, h.items, fun _ => by simp [Rt.ringBell], h.q, h.wlook, h.wok, h.tInited, h.tActive, h.tAI, h.tSlept, h.tIdle⟩
+  exact ⟨h.nobad, h.items, fun _ _ => by simp [Rt.ringBell], h.q, h.wlook, h.wok, h.tInited, h.tActive, h.tAI, h.tSlept, h.tIdle⟩
 
 theorem judgeWait_ok (j : JState) (max : Nat) (ring : List Item) (hi : j.outstanding.map (·.2) = ring) :
     judgeWait j max (ring.take max) = { j with outstanding := j.outstanding.drop max } := by
@@ -177,43 +177,104 @@ theorem judgeWait_ok (j : JState) (max : Nat) (ring : List Item) (hi : j.outstan
   exact judge_items (ring.take max) j (j.outstanding.drop max) (j.outstanding.take max)
     (List.take_append_drop max j.outstanding).symm (by rw [← hi, List.map_take])
 
+theorem rel_same (s : World) (j : JState) (h : Rel s j) (e : Ev) (he : judgeCore j e = j) :
+    Rel s (judgeRun j [e]) := by
+  rw [judgeRun_single h, he]; exact h
+
+/-- a wait that finds nothing readable: the doorbell invariant says the ring is empty, the oracle expects nothing -/
+theorem rel_wait_nothing (s : World) (j : JState) (h : Rel s j) (max : Nat) (hidle : s.cons = .idle)
+    (hp : ¬ s.rt.poll = true) : Rel s (judgeRun j [.wait max []]) := by
+  rw [judgeRun_single h]
+  simp only [judgeCore]
+  have hb : s.rt.bell = 0 := by simpa [Rt.poll] using hp
+  have hr : s.rt.ring = [] := by
+    by_cases hr : s.rt.ring = []
+    · exact hr
+    · have := h.bell (by simp [hidle]) hr; omega
+  have : ([] : List Item) = s.rt.ring.take max := by simp [hr]
+  rw [this, judgeWait_ok j max s.rt.ring h.items]
+  have ho : j.outstanding = [] := by
+    have := h.items; rw [hr] at this; simpa using this
+  refine ⟨h.nobad, ?_, h.bell, h.q, h.wlook, h.wok, h.tInited, h.tActive, h.tAI, h.tSlept, h.tIdle⟩
+  simp [ho, hr]
+
+/-- the locked section of a wait (take + re-arm), from a state whose doorbell has just been read -/
+theorem rel_pop (s : World) (j : JState) (h : Rel s j) (max : Nat) (rt0 : Rt) (hring : rt0.ring = s.rt.ring) :
+    Rel { s with rt := (rt0.pop max).1, cons := .idle } (judgeRun j [.wait max (rt0.pop max).2]) := by
+  rw [judgeRun_single h]
+  simp only [judgeCore, Rt.pop, hring]
+  rw [judgeWait_ok j max s.rt.ring h.items]
+  refine ⟨h.nobad, ?_, ?_, h.q, h.wlook, h.wok, h.tInited, h.tActive, h.tAI, h.tSlept, h.tIdle⟩
+  · simp only [List.map_drop, h.items]
+  · intro _ hne
+    simp only at hne ⊢
+    have : (List.drop max s.rt.ring).isEmpty = false := by
+      cases hd : List.drop max s.rt.ring with
+      | nil => exact absurd hd hne
+      | cons a l => rfl
+    simp [this]
+
 theorem rel_wait (s : World) (j : JState) (h : Rel s j) (max : Nat) :
     Rel (stepE s (.wait max)).1 (judgeRun j (stepE s (.wait max)).2) := by
   simp only [stepE]
   by_cases hm : max = 0
   · simp only [hm, if_true]
-    rw [judgeRun_single h]
-    exact h
+    exact rel_same s j h _ rfl
   · simp only [hm, if_false]
+    by_cases hc : s.cons = .idle
+    · simp only [hc, ne_eq, not_true_eq_false, if_false]
+      unfold Rt.wait
+      by_cases hp : s.rt.poll = true
+      · simp only [hp, if_true]
+        have := rel_pop s j h max s.rt.drain rfl
+        rw [hc] at *
+        cases s
+        simp_all
+      · simp only [hp, Bool.false_eq_true, if_false]
+        have := rel_wait_nothing s j h max hc hp
+        cases s
+        simp_all
+    · simp only [ne_eq, hc, not_false_eq_true, if_true]
+      exact rel_same s j h _ rfl
+
+theorem rel_wbegin (s : World) (j : JState) (h : Rel s j) (max : Nat) :
+    Rel (stepE s (.wbegin max)).1 (judgeRun j (stepE s (.wbegin max)).2) := by
+  simp only [stepE]
+  by_cases hm : max = 0
+  · simp only [hm, if_true]
+    exact rel_same s j h _ rfl
+  · simp only [hm, if_false]
+    by_cases hc : s.cons = .idle
+    · simp only [hc, ne_eq, not_true_eq_false, if_false]
+      by_cases hp : s.rt.poll = true
+      · simp only [hp, if_true]
+        rw [judgeRun_single h]
+        simp only [judgeCore]
+        exact ⟨h.nobad, h.items, fun _ hne => h.bell (by simp [hc]) hne, h.q, h.wlook, h.wok, h.tInited, h.tActive, h.tAI,
+          h.tSlept, h.tIdle⟩
+      · simp only [hp, Bool.false_eq_true, if_false]
+        exact rel_wait_nothing s j h max hc hp
+    · simp only [ne_eq, hc, not_false_eq_true, if_true]
+      exact rel_same s j h _ rfl
+
+theorem rel_wread (s : World) (j : JState) (h : Rel s j) :
+    Rel (stepE s .wread).1 (judgeRun j (stepE s .wread).2) := by
+  simp only [stepE]
+  split
+  · rename_i m hc
     rw [judgeRun_single h]
     simp only [judgeCore]
-    unfold Rt.wait
-    by_cases hp : s.rt.poll = true
-    · simp only [hp, if_true, Rt.pop, Rt.drain]
-      rw [judgeWait_ok j max s.rt.ring h.items]
-      refine ⟨h.nobad, ?_, ?_, h.q, h.wlook, h.wok, h.tInited, h.tActive, h.tAI, h.tSlept, h.tIdle⟩
-      · simp only [List.map_drop, h.items]
-      · intro hne
-        simp only at hne ⊢
-        have : (List.drop max s.rt.ring).isEmpty = false := by
-          cases hd : List.drop max s.rt.ring with
-          | nil => exact absurd hd hne
-          | cons a l => rfl
-        simp [this]
-    · simp only [hp]
-      have hb : s.rt.bell = 0 := by simpa [Rt.poll] using hp
-      have hr : s.rt.ring = [] := by
-        by_cases hr : s.rt.ring = []
-        · exact hr
-        · have := h.bell hr; omega
-      have : ([] : List Item) = s.rt.ring.take max := by simp [hr]
-      simp only [Bool.false_eq_true, if_false]
-      rw [this, judgeWait_ok j max s.rt.ring h.items]
-      have ho : j.outstanding = [] := by
-        have := h.items; rw [hr] at this; simpa using this
-      refine ⟨h.nobad, ?_, h.bell, h.q, h.wlook, h.wok, h.tInited, h.tActive, h.tAI, h.tSlept, h.tIdle⟩
-      simp [ho, hr]
+    exact ⟨h.nobad, h.items, fun hnd => absurd rfl (hnd m), h.q, h.wlook, h.wok, h.tInited, h.tActive, h.tAI,
+      h.tSlept, h.tIdle⟩
+  · exact rel_same s j h _ rfl
 
+theorem rel_wend (s : World) (j : JState) (h : Rel s j) :
+    Rel (stepE s .wend).1 (judgeRun j (stepE s .wend).2) := by
+  simp only [stepE]
+  split
+  · rename_i m hc
+    exact rel_pop s j h m s.rt rfl
+  · exact rel_same s j h _ rfl
 
 /-! ### timer and the run-only commands -/
 
@@ -223,10 +284,6 @@ macro "rel_auto" h:ident : tactic => `(tactic| (
   have hti := ($h).tInited; have hta := ($h).tActive
   have htai := ($h).tAI; have hts := ($h).tSlept; have htid := ($h).tIdle
   refine ⟨?_, ?_, ?_, ?_, ($h).wlook, ($h).wok, ?_, ?_, ?_, ?_, ?_⟩ <;> simp_all))
-
-theorem rel_same (s : World) (j : JState) (h : Rel s j) (e : Ev) (he : judgeCore j e = j) :
-    Rel s (judgeRun j [e]) := by
-  rw [judgeRun_single h, he]; exact h
 
 theorem rel_tinit (s : World) (j : JState) (h : Rel s j) : Rel (stepE s .tinit).1 (judgeRun j (stepE s .tinit).2) := by
   simp only [stepE]
@@ -919,6 +976,9 @@ theorem rel_step (s : World) (j : JState) (h : Rel s j) (c : Cmd) :
   | post p k d => exact rel_post s j h p k d
   | wakeup => exact rel_wakeup s j h
   | wait m => exact rel_wait s j h m
+  | wbegin m => exact rel_wbegin s j h m
+  | wread => exact rel_wread s j h
+  | wend => exact rel_wend s j h
   | qnew a b c => exact rel_qnew s j h a b c
   | enq p v sz => exact rel_enq s j h p v sz
   | deq b => exact rel_deq s j h b
@@ -954,7 +1014,7 @@ theorem rel_run (cmds : List Cmd) : ∀ (s : World) (j : JState), Rel s j →
     exact ih _ _ (rel_step s j h c)
 
 theorem rel_init : Rel {} {} := by
-  refine ⟨rfl, rfl, fun h => absurd rfl h, rfl, fun _ => rfl, ?_, rfl, rfl, ?_, ?_, fun _ => rfl⟩
+  refine ⟨rfl, rfl, fun _ h => absurd rfl h, rfl, fun _ => rfl, ?_, rfl, rfl, ?_, ?_, fun _ => rfl⟩
   · intro w k hk; cases hk
   · intro h; cases h
   · intro h; cases h
